@@ -13,7 +13,7 @@ def run_block(chk, repo, rid_prefix, q, kind, single_rule=None, rule_override=No
 
     def report(k, node, ok, text):
         items.append((k, node, ok, text))
-    ba = BlockAnalysis(fi, report, kind)
+    ba = BlockAnalysis(fi, report, kind, imports=repo.modules[fi.module].imports)
     ba.run()
     ba.check_return()
     rules = {'perm': 'R1', 'perm-pair': 'R1', 'unperm': 'R1', 'return': 'R1',
